@@ -60,6 +60,7 @@ const (
 	maxIndex    = 16*1024*8 - 1 // revocation.maxBitstringIndex (unexported); checked against the real code in calibrate()
 	defaultTick = 6 * 3600      // one model tick = a quarter of statusListValidity (24h); re-measured by calibrate()
 	issuerBase  = "https://issuer.example"
+	extBase     = "https://ext.example" // external (scripted) issuers serve their own lists here
 )
 
 // ------------------------------------------------------------------------------------------------ input / output
@@ -271,6 +272,11 @@ func (d *doer) Do(req *http.Request) (*http.Response, error) {
 		return &http.Response{StatusCode: code, Status: strconv.Itoa(code), Body: io.NopCloser(bytes.NewReader(body)),
 			Header: http.Header{"Content-Type": []string{"application/json"}}, Request: req}, nil
 	}
+	x := d.w.run.extByURL(u)
+	nbytes := 16 * 1024
+	if x != nil {
+		nbytes = x.bytes
+	}
 	switch mode {
 	case "down":
 		d.fetches = append(d.fetches, rec)
@@ -280,10 +286,21 @@ func (d *doer) Do(req *http.Request) (*http.Response, error) {
 		if mode == "forged-set" {
 			ix = d.forgeIx
 		}
-		body, err := d.w.forgeList(u, ix)
+		body, err := d.w.forgeList(u, ix, nbytes)
 		if err != nil {
 			return nil, err
 		}
+		return respond(200, body)
+	}
+	if x != nil { // the list of an external issuer, served by that issuer
+		if mode != "up" {
+			return respond(404, []byte(`{"title":"not found"}`))
+		}
+		body, sd, err := d.w.run.extList(x)
+		if err != nil {
+			return nil, err
+		}
+		rec.Target, rec.Served = u, sd
 		return respond(200, body)
 	}
 	target := u
@@ -357,6 +374,7 @@ type world struct {
 	inode *issuerNode
 	nodes map[string]*verifierNode
 	atkKS *nutsCrypto.Crypto
+	extKS *nutsCrypto.Crypto
 	run   *runState
 	seq   int
 	// tick: seconds of one model tick = a quarter of the validity window of the list credentials the node issues
@@ -420,6 +438,7 @@ func buildWorld(t *testing.T, in input) *world {
 		w.nodes[name] = n
 	}
 	w.atkKS = nutsCrypto.NewMemoryCryptoInstance(t)
+	w.extKS = nutsCrypto.NewMemoryCryptoInstance(t)
 	return w
 }
 
@@ -432,10 +451,12 @@ func must(t *testing.T, err error) {
 
 // ------------------------------------------------------------------------------------------------ documents
 
-func compressBits(ix []int) string {
-	bs := make([]byte, 16*1024)
+func compressBits(ix []int, nbytes int) string {
+	bs := make([]byte, nbytes)
 	for _, i := range ix {
-		bs[i/8] |= 1 << (7 - uint(i%8))
+		if i/8 < nbytes {
+			bs[i/8] |= 1 << (7 - uint(i%8))
+		}
 	}
 	var buf bytes.Buffer
 	gz := gzip.NewWriter(&buf)
@@ -490,7 +511,7 @@ func (w *world) signLD(ks *nutsCrypto.Crypto, doc any, kid string, created time.
 }
 
 // forgeList: a StatusList2021Credential for url, issued and validly signed by the OUTSIDER.
-func (w *world) forgeList(url string, ix []int) ([]byte, error) {
+func (w *world) forgeList(url string, ix []int, nbytes int) ([]byte, error) {
 	r := w.run
 	now := time.Now()
 	exp := now.Add(24 * time.Hour)
@@ -513,7 +534,7 @@ func (w *world) forgeList(url string, ix []int) ([]byte, error) {
 		IssuanceDate:   now,
 		ExpirationDate: &exp,
 		CredentialSubject: []any{revocation.StatusList2021CredentialSubject{ID: url, Type: revocation.StatusList2021CredentialSubjectType,
-			StatusPurpose: revocation.StatusPurposeRevocation, EncodedList: compressBits(ix)}},
+			StatusPurpose: revocation.StatusPurposeRevocation, EncodedList: compressBits(ix, nbytes)}},
 	}
 	return w.signLD(w.atkKS, tpl, signerKid, now)
 }
@@ -568,6 +589,7 @@ type runState struct {
 	must       map[string]map[string]bool // node -> credentials the node is obliged to reject
 	lastBits   map[string][]int           // url -> bits of the previous served version
 	opSeq      int                        // number of completed revocations
+	ext        map[string]*extIssuer      // external issuers of the script, by the size class of their list
 	forgedBy   string                     // issuer of the last forged status list
 	pend       map[string]*pending        // operations standing at the transaction gate, by name
 	forgers    map[string]string          // lookalike DID -> key id
@@ -589,7 +611,7 @@ func (w *world) newRun(sc script) (*runState, error) {
 	w.seq++
 	r := &runState{w: w, sc: sc, sid: fmt.Sprintf("z%dq%d", os.Getpid(), w.seq), res: &result{ID: sc.ID, Violations: []violation{}, Drift: []string{}, Stats: map[string]int{}},
 		web: map[string]did.DID{}, nuts: map[string]did.DID{}, creds: map[string]*credInfo{}, alloc: map[string][]int{}, lastURL: map[string]string{},
-		usedSlots: map[string]string{}, must: map[string]map[string]bool{"n1": {}, "n2": {}}, lastBits: map[string][]int{}, dummyRev: map[string][]byte{}, delivered: map[string]string{}, pend: map[string]*pending{}, forgers: map[string]string{}}
+		usedSlots: map[string]string{}, must: map[string]map[string]bool{"n1": {}, "n2": {}}, lastBits: map[string][]int{}, dummyRev: map[string][]byte{}, delivered: map[string]string{}, pend: map[string]*pending{}, forgers: map[string]string{}, ext: map[string]*extIssuer{}}
 	w.run = r
 	r.timeline = []tickMark{{at: time.Time{}, total: 0}}
 	for _, i := range []string{"i1", "i2"} {
@@ -781,8 +803,101 @@ func (r *runState) onServed(url string, body []byte, beginSeq int) *servedDoc {
 	return sd
 }
 
+// extIssuer is an EXTERNAL issuer (not hosted on the issuer node): scripted here, with real keys and a resolvable DID; it
+// issues credentials with a StatusList2021Entry in its own list and serves that list itself. Its list has the minimum size
+// (16kB), one byte more, or twice the size; entries sit at position classes 0 first, 1 last of a minimum list, 2 first beyond
+// it, 3 last of the list, 4 beyond the list.
+type extIssuer struct {
+	size  string
+	did   did.DID
+	kid   string
+	url   string
+	bytes int
+	bits  map[int]bool
+}
+
+func (x *extIssuer) index(pos int) int {
+	switch pos {
+	case 0:
+		return 0
+	case 1:
+		return 16*1024*8 - 1
+	case 2:
+		return 16 * 1024 * 8
+	case 3:
+		return x.bytes*8 - 1
+	}
+	return x.bytes * 8
+}
+
+func (x *extIssuer) posOf(index int) int {
+	for _, pos := range []int{0, 1, 2, 3, 4} {
+		if x.index(pos) == index {
+			return pos
+		}
+	}
+	return 99
+}
+
+func (r *runState) extIssuerOf(size string) (*extIssuer, error) {
+	if x := r.ext[size]; x != nil {
+		return x, nil
+	}
+	nbytes, ok := map[string]int{"min": 16 * 1024, "odd": 16*1024 + 1, "double": 32 * 1024}[size]
+	if !ok {
+		return nil, fmt.Errorf("unknown list size class %q", size)
+	}
+	x := &extIssuer{size: size, bytes: nbytes, bits: map[int]bool{}, did: did.MustParseDID("did:web:ext.example:iam:" + r.sid + size)}
+	x.url = extBase + "/statuslist/" + x.did.String() + "/1"
+	var err error
+	if x.kid, err = r.w.res.add(r.w.ctx, r.w.extKS, x.did); err != nil {
+		return nil, err
+	}
+	r.ext[size] = x
+	return x, nil
+}
+
+func (r *runState) extByURL(url string) *extIssuer {
+	for _, x := range r.ext {
+		if x.url == url {
+			return x
+		}
+	}
+	return nil
+}
+
+// extList: the external issuer's list credential as it serves it now (always signed afresh, valid for 24h).
+func (r *runState) extList(x *extIssuer) ([]byte, *servedDoc, error) {
+	now := time.Now()
+	exp := now.Add(24 * time.Hour)
+	var ix []int
+	for i := range x.bits {
+		ix = append(ix, i)
+	}
+	sort.Ints(ix)
+	id := ssi.MustParseURI(x.did.String() + "#" + uuid.NewString())
+	tpl := vc.VerifiableCredential{
+		Context:        []ssi.URI{vc.VCContextV1URI(), revocation.StatusList2021ContextURI},
+		Type:           []ssi.URI{vc.VerifiableCredentialTypeV1URI(), ssi.MustParseURI(revocation.StatusList2021CredentialType)},
+		ID:             &id,
+		Issuer:         x.did.URI(),
+		IssuanceDate:   now,
+		ExpirationDate: &exp,
+		CredentialSubject: []any{revocation.StatusList2021CredentialSubject{ID: x.url, Type: revocation.StatusList2021CredentialSubjectType,
+			StatusPurpose: revocation.StatusPurposeRevocation, EncodedList: compressBits(ix, x.bytes)}},
+	}
+	body, err := r.w.signLD(r.w.extKS, tpl, x.kid, now)
+	return body, &servedDoc{URL: x.url, ID: id.String(), Issuer: x.did.String(), Bits: ix, Left: 4, SigOK: true}, err
+}
+
 func (r *runState) modelBits(url string, bits []int) []int {
 	out := []int{}
+	if x := r.extByURL(url); x != nil {
+		for _, b := range bits {
+			out = append(out, x.posOf(b))
+		}
+		return out
+	}
 	for _, b := range bits {
 		if s := r.slotOf(b); s >= 0 {
 			out = append(out, s)
@@ -879,7 +994,31 @@ func (r *runState) doStep(st step) error {
 		i, kind := st.str("i"), st.str("kind")
 		name := fmt.Sprintf("c%d", len(r.order)+1)
 		ci := &credInfo{name: name, kind: kind, iss: i}
-		if kind == "sl" {
+		if kind == "ext" {
+			x, err := r.extIssuerOf(i)
+			if err != nil {
+				return err
+			}
+			pos := st.num("slot")
+			id := ssi.MustParseURI(x.did.String() + "#" + uuid.NewString())
+			now := time.Now()
+			tpl := template(x.did)
+			tpl.Context = []ssi.URI{vc.VCContextV1URI(), credential.NutsV1ContextURI, revocation.StatusList2021ContextURI}
+			tpl.Type = append(tpl.Type, vc.VerifiableCredentialTypeV1URI())
+			tpl.ID = &id
+			tpl.IssuanceDate = now
+			idx := strconv.Itoa(x.index(pos))
+			tpl.CredentialStatus = []any{revocation.StatusList2021Entry{ID: x.url + "#" + idx, Type: revocation.StatusList2021EntryType, StatusPurpose: "revocation", StatusListIndex: idx, StatusListCredential: x.url}}
+			b, err := w.signLD(w.extKS, tpl, x.kid, now)
+			if err != nil {
+				return err
+			}
+			c, err := vc.ParseVerifiableCredential(string(b))
+			if err != nil {
+				return err
+			}
+			ci.vc, ci.url, ci.index, ci.page, ci.slot = c, x.url, x.index(pos), 1, pos
+		} else if kind == "sl" {
 			// a long history of issuances: move last_issued_index so that the next entry is the real index of the next model slot
 			if pages := r.alloc[i]; len(pages) > 0 {
 				k := pages[len(pages)-1]
@@ -941,6 +1080,22 @@ func (r *runState) doStep(st step) error {
 		c := r.creds[st.str("c")]
 		if c == nil {
 			return fmt.Errorf("unknown credential %s", st.str("c"))
+		}
+		if c.kind == "ext" { // the external issuer sets the bit in its own list
+			x := r.ext[c.iss]
+			res := "ok"
+			if c.index >= x.bytes*8 {
+				return fmt.Errorf("%s has an index outside the list of its issuer: cannot be revoked", c.name)
+			}
+			if x.bits[c.index] {
+				res = "already"
+			} else {
+				x.bits[c.index] = true
+				r.opSeq++
+				c.revoked, c.revokedSeq = true, r.opSeq
+			}
+			r.ev(map[string]any{"ev": "revoke.status", "c": c.name, "res": res})
+			return nil
 		}
 		var err error
 		before := len(w.inode.net.published)
@@ -1007,6 +1162,14 @@ func (r *runState) doStep(st step) error {
 		}
 	case "Serve":
 		i, p := st.str("i"), st.num("p")
+		if x := r.ext[i]; x != nil {
+			_, sd, err := r.extList(x)
+			if err != nil {
+				return err
+			}
+			r.ev(map[string]any{"ev": "serve", "i": i, "p": 1, "signer": i, "left": sd.Left, "bits": r.modelBits(x.url, sd.Bits), "sigok": true})
+			return nil
+		}
 		url := issuerBase + "/statuslist/" + r.web[i].String() + "/" + strconv.Itoa(p)
 		cred, err := w.inode.iss.StatusList(w.ctx, r.web[i], p)
 		if err != nil {
@@ -1112,7 +1275,14 @@ func (r *runState) doStep(st step) error {
 		}
 		n.doer.mode, n.doer.fetches = src, nil
 		n.doer.other, n.doer.forgeIx = "", nil
-		if c.kind != "net" {
+		if c.kind == "ext" {
+			x := r.ext[c.iss]
+			for pos := 0; pos <= 3; pos++ { // a forged "set" list has the bit of every position of the list set
+				if x.index(pos) < x.bytes*8 {
+					n.doer.forgeIx = append(n.doer.forgeIx, x.index(pos))
+				}
+			}
+		} else if c.kind != "net" {
 			n.doer.forgeIx = append([]int{}, r.slotIndex...) // a forged "set" list has the bit of every slot set
 			// "another list": the same issuer's other page if there is one, else page 1 of the other issuer
 			if li, pg, ok := parseListURL(c.url); ok {
@@ -1152,13 +1322,13 @@ func (r *runState) doStep(st step) error {
 			}
 			if f.Served != nil {
 				e["served"] = map[string]any{"signer": r.modelIssuer(f.Served.Issuer), "left": f.Served.Left, "bits": r.modelBits(f.Target, f.Served.Bits), "sigok": f.Served.SigOK,
-					"i": r.modelIssuer(issuerOfURL(f.Target)), "p": pageOf(f.Target)}
+					"i": r.modelIssuer(r.issuerOfURL(f.Target)), "p": r.pageOf(f.Target)}
 				// the node has refreshed the list from the issuer node, for a credential of the list's own issuer: every credential
 				// the issuer has revoked on that list must be rejected by this node from now on. (A download made for the outsider's
 				// credential does not count: the node may refuse a list that was not issued by that credential's issuer.)
-				if f.Mode == "up" && f.Target == f.URL && c.kind == "sl" {
+				if f.Mode == "up" && f.Target == f.URL && (c.kind == "sl" || c.kind == "ext") {
 					for _, d := range r.creds {
-						if d.kind == "sl" && d.url == f.URL && d.revoked {
+						if (d.kind == "sl" || d.kind == "ext") && d.url == f.URL && d.revoked {
 							r.must[n.name][d.name] = true
 						}
 					}
@@ -1187,13 +1357,30 @@ func (r *runState) doStep(st step) error {
 	return nil
 }
 
-func pageOf(url string) int         { _, p, _ := parseListURL(url); return p }
-func issuerOfURL(url string) string { d, _, _ := parseListURL(url); return d.String() }
+func (r *runState) pageOf(url string) int {
+	if r.extByURL(url) != nil {
+		return 1
+	}
+	_, p, _ := parseListURL(url)
+	return p
+}
+func (r *runState) issuerOfURL(url string) string {
+	if x := r.extByURL(url); x != nil {
+		return x.did.String()
+	}
+	d, _, _ := parseListURL(url)
+	return d.String()
+}
 
 func (r *runState) modelIssuer(d string) string {
 	for i, w := range r.web {
 		if w.String() == d {
 			return i
+		}
+	}
+	for size, x := range r.ext {
+		if x.did.String() == d {
+			return size
 		}
 	}
 	if d == r.atkWeb.String() {
@@ -1204,8 +1391,11 @@ func (r *runState) modelIssuer(d string) string {
 
 // didOf: the DID that issued the credential
 func (r *runState) didOf(c *credInfo) did.DID {
-	if c.kind == "net" {
+	switch c.kind {
+	case "net":
 		return r.nuts[c.iss]
+	case "ext":
+		return r.ext[c.iss].did
 	}
 	return r.web[c.iss]
 }
@@ -1286,15 +1476,19 @@ func (r *runState) revocationDoc(c *credInfo, kind, rel string) ([]byte, error) 
 		}
 		return w.signLD(w.atkKS, credential.BuildRevocation(owner.URI(), *c.vc.ID), ownerKid, now)
 	case "resubject": // a genuine revocation of ANOTHER credential id of the same issuer (a did:nuts one), with the subject replaced
-		doc := r.dummyRev[c.iss]
+		host := c.iss
+		if c.kind == "ext" { // an external issuer makes no network revocations: take one of a hosted issuer
+			host = "i1"
+		}
+		doc := r.dummyRev[host]
 		if doc == nil {
-			other := ssi.MustParseURI(r.nuts[c.iss].String() + "#" + uuid.NewString())
+			other := ssi.MustParseURI(r.nuts[host].String() + "#" + uuid.NewString())
 			before := len(w.inode.net.published)
 			if _, err := w.inode.iss.Revoke(w.ctx, other); err != nil {
 				return nil, err
 			}
 			doc = w.inode.net.published[before].Payload
-			r.dummyRev[c.iss] = doc
+			r.dummyRev[host] = doc
 		}
 		m := map[string]any{}
 		if err := json.Unmarshal(doc, &m); err != nil {
